@@ -23,7 +23,7 @@ fn max_diff(flat: &Flat, a: &Profile, b: &Profile, p: usize) -> f64 {
 pub fn run(ctx: &mut Ctx) {
     let quick = ctx.quick();
     let n = if quick { 150_000 } else { 6_000_000 };
-    let ps = [1e-3, 0.3, 0.5, 1.0, 1.5, 2.0, 10.0, 1e3];
+    let ps = [1e-3, 0.3, 0.5, 1.0, 1.5, 2.0, 10.0, 1e3, f64::INFINITY, 1e300, 1e-300];
     ctx.run_cases(n, |ctx, idx, rng| {
         let size = rng.below(3);
         let (desc, tree) = gen::any_game(rng, size);
@@ -200,7 +200,7 @@ pub fn run(ctx: &mut Ctx) {
         }
     });
     ctx.finish(crate::report::extra(
-        "cases = (game, profile pair, exponent): G1/G2 games incl. games where a player has no multi-action infoset x (a third of the cases: profile a imported from a listing whose infosets are split over several entries; it must be at distance 0 from its merged import) x pairs {identical, random vs pure, one infoset differs, disjoint supports, random} x p in {1e-3,0.3,0.5,1,1.5,2,10,1e3}. Laws checked per player component: not NaN, within [0,1], distance(a,a)=0, zero when the player's strategies coincide, positive when they differ by >=1e-3 somewhere (p<=10; larger p is don't-care because |d|^p underflows), symmetric. Every fourth case also probes the documented panics: p in {0,-1,NaN,-inf,-0} and two separately built copies of the same tree. distinct = hash(tree, both profiles, p); non-trivial = some player has a multi-action infoset.",
+        "cases = (game, profile pair, exponent): G1/G2 games incl. games where a player has no multi-action infoset x (a third of the cases: profile a imported from a listing whose infosets are split over several entries; it must be at distance 0 from its merged import) x pairs {identical, random vs pure, one infoset differs, disjoint supports, random} x p in {1e-3,0.3,0.5,1,1.5,2,10,1e3,+inf,1e300,1e-300}. Laws checked per player component: not NaN, within [0,1], distance(a,a)=0, zero when the player's strategies coincide, positive when they differ by >=1e-3 somewhere (p<=10; larger p is don't-care because |d|^p underflows), symmetric. Every fourth case also probes the documented panics: p in {0,-1,NaN,-inf,-0} and two separately built copies of the same tree. distinct = hash(tree, both profiles, p); non-trivial = some player has a multi-action infoset.",
         &["NaN is treated as 'not positive' for the exponent"],
     ));
 }
